@@ -372,13 +372,49 @@ void XMLWriter::taTempl(const template_t& templ)
     endElement();  // end of the "template" tag
 }
 
+/* The arguments of the process's template, one per template parameter. An argument may mention parameters of
+ * intermediate (partial) instances which are bound themselves; these are replaced by their own arguments. */
+static string template_arguments(const instance_t& p)
+{
+    const frame_t& formal = p.templ->parameters;
+    string res;
+    for (uint32_t i = 0; i < formal.get_size(); ++i) {
+        if (i > 0)
+            res += ", ";
+        auto arg = p.mapping.find(formal[i]);
+        if (arg == p.mapping.end()) {
+            res += formal[i].get_name();  // left unbound
+            continue;
+        }
+        expression_t e = arg->second;
+        for (uint32_t k = p.parameters.get_size(); k-- > p.unbound;) {
+            auto bound = p.mapping.find(p.parameters[k]);
+            if (bound != p.mapping.end())
+                e = e.subst(p.parameters[k], bound->second);
+        }
+        res += e.str();
+    }
+    return res;
+}
+
 void XMLWriter::system_instantiation()
 {  // TODO proc priority
     string str = "";
     string proc = "";
     for (const instance_t& p : doc->get_processes()) {
-        if (p.uid.get_name() != p.templ->uid.get_name())
-            str += p.uid.get_name() + " = " + p.templ->uid.get_name() + "(" + p.arguments_str() + ");\n";
+        if (p.uid.get_name() != p.templ->uid.get_name()) {
+            str += p.uid.get_name();
+            if (p.unbound > 0) {  // unbound parameters remain parameters of the process
+                str += "(";
+                for (uint32_t i = 0; i < p.unbound; ++i) {
+                    if (i > 0)
+                        str += ", ";
+                    str += p.parameters[i].get_type().declaration() + " " + p.parameters[i].get_name();
+                }
+                str += ")";
+            }
+            str += " = " + p.templ->uid.get_name() + "(" + template_arguments(p) + ");\n";
+        }
         proc += p.uid.get_name() + ", ";
     }
     proc = proc.substr(0, proc.size() - 2);
